@@ -16,7 +16,7 @@
 (***************************************************************************)
 EXTENDS Naturals, Sequences, FiniteSets, TLC
 
-Idents == {"a", "b", "c", "d", "f", "m", "x", "K", "V", "A", "B", "T", "M", "X", "u8", "sentinel"}
+Idents == {"a", "b", "c", "d", "f", "m", "x", "K", "V", "A", "B", "T", "M", "X", "u8", "sentinel", "r#type"}
 Groups == {"G(", "G[", "G{"}
 IsIdent(t) == t \in Idents
 
@@ -25,6 +25,8 @@ IsIdent(t) == t \in Idents
 (***************************************************************************)
 Forms == [
   ident        |-> <<"x">>,
+  \* a keyword as a raw identifier: one identifier token, handed over as written (`r#type`, never `type`)
+  rawident     |-> <<"r#type">>,
   literal      |-> <<"1">>,
   call         |-> <<"f", "G(">>,
   method       |-> <<"x", ".", "m", "G(">>,
@@ -166,7 +168,7 @@ DocFrom(args, j, pos) ==
     IF j > Len(args) THEN <<>>
     ELSE LET n == Len(ArgTokens(args[j])) IN
          <<[from |-> pos, to |-> pos + n - 1,
-            ident |-> args[j].form = "ident" /\ ~args[j].alias]>> \o DocFrom(args, j + 1, pos + n + 1)
+            ident |-> args[j].form \in {"ident", "rawident"} /\ ~args[j].alias]>> \o DocFrom(args, j + 1, pos + n + 1)
 DocSplit(args) == DocFrom(args, 1, 1)
 
 (***************************************************************************)
